@@ -756,6 +756,56 @@ func runC14(c *Ctx) {
 		} else {
 			r.Ok("R7", key, c.fpos(f), "every path through Close closes the transport")
 		}
+		// … and gets there without waiting for a writer: Close does not take a mutex that another function of the
+		// library holds while it writes to the transport (a writer stuck on a peer that stopped reading would keep
+		// Close, and with it the termination, from ever happening)
+		ioMutex := map[string]string{}
+		for _, g := range c.P.LibraryFuncs() {
+			if pkgOf(g).Path() != pkgDiam || g == f {
+				continue
+			}
+			ops := lockOps(g)
+			if len(ops) == 0 {
+				continue
+			}
+			for _, ci := range flow.CallInstrs(g) {
+				com := ci.Common()
+				isIO := false
+				if com.IsInvoke() {
+					switch com.Method.Name() {
+					case "Write", "WriteStream", "Flush":
+						isIO = true
+					}
+				} else if o := flow.CalleeObj(ci); o != nil && o.Pkg() != nil && o.Pkg().Path() == "bufio" && (o.Name() == "Write" || o.Name() == "Flush") {
+					isIO = true
+				}
+				if !isIO {
+					continue
+				}
+				for _, op := range ops {
+					if op.acquire && mustHeldAt(g, ci, op.path, op.exclusive) {
+						if mf := mutexField(op.in); mf != "" {
+							ioMutex[mf] = fname(g)
+						}
+					}
+				}
+			}
+		}
+		wkey := fname(f) + ":close-does-not-wait-for-writers"
+		var waits ssa.Instruction
+		holder := ""
+		for _, op := range lockOps(f) {
+			if op.acquire {
+				if h, ok := ioMutex[mutexField(op.in)]; ok {
+					waits, holder = op.in, h
+				}
+			}
+		}
+		if waits != nil {
+			r.Fail("R7", wkey, c.pos(waits), "Close takes "+mutexField(waits.(ssa.CallInstruction))+", which "+holder+" holds while writing to the transport: a Close issued while a write is stuck (the peer stopped reading) blocks forever, the transport is never closed and CloseNotify never fires")
+		} else {
+			r.Ok("R7", wkey, c.fpos(f), "Close takes no mutex that is held across transport writes")
+		}
 	}
 }
 
